@@ -6,5 +6,6 @@ CONSTANTS
   MaxArrivals = 1000000
   MaxSets = 1000000
   Variant = "fixed"
+  Side = "read"
 POSTCONDITION Accepted
 CHECK_DEADLOCK FALSE
